@@ -660,3 +660,38 @@ def _operands_of_rvalue(rv):
             yield rv[k]
     for o in rv.get("ops", []):
         yield o
+
+
+def undelegated_results(body, through):
+    """for a function that is meant to answer through a call in `through` (a set of block indices): the places where it
+    gives its result another way.  Returns [(block, description, line)] for every assignment of the return place - or
+    call writing it - that is reachable from the entry without passing a `through` block and is not the constant false
+    (the 'different resource / nothing to compare' answer)."""
+    reach = set()
+    stack = [0]
+    while stack:
+        x = stack.pop()
+        if x in reach or x in through:
+            continue
+        reach.add(x)
+        for y in body.succs(x):
+            stack.append(y)
+    out = []
+    for bi in sorted(reach):
+        blk = body.blocks[bi]
+        for s_ in blk["s"]:
+            if s_["p"]["l"] == 0 and not s_["p"]["p"]:
+                rv = s_.get("rv") or {}
+                k = None
+                if rv.get("o"):
+                    k = str(body.key_of_operand(rv["o"]))
+                elif rv.get("r") in ("un", "bin", "cast", "agg", "ref"):
+                    k = rv.get("r")
+                if k in ("const:false", "const:0"):
+                    continue
+                # a copy of a local that only ever holds the through-call's result cannot be reached here (the call block is excluded)
+                out.append((bi, k or "?", s_.get("line")))
+        t = blk["t"]
+        if t["t"] == "call" and (t.get("dest") or {}).get("l") == 0 and not t["dest"]["p"]:
+            out.append((bi, "call:" + short_fn(callee_of(t)[0] or "?"), t.get("line")))
+    return out
